@@ -91,7 +91,7 @@ def main():
       mjw.step(m, d)
       if mjm.nu:
         mjw.set_length_range(m, d)
-      if not np.isfinite(d.qpos.numpy()).all() and (d.overflow.numpy() == 0).all() and not (sleep and jac):
+      if not np.isfinite(d.qpos.numpy()).all() and (d.overflow.numpy() == 0).all():
         status = "nonfinite"
     except (ValueError, NotImplementedError) as e:
       status = "rejected:" + type(e).__name__
